@@ -117,6 +117,8 @@ def main(argv):
             c.coverage["tie_compared"] = cmp_n
             c.coverage["traces_validated_against_impl"] = cmp_n
     seen = 0
+    # failures that repeat alone first; history-dependent ones (a later victim of a damaged interpreter) last
+    prop_fail.sort(key=lambda f: (0 if f.get("standalone") else 1, 0 if "follow-up" in (f.get("msg") or "") else 1))
     for f in prop_fail:
         seen += 1
         if seen > 8:
@@ -130,6 +132,7 @@ def main(argv):
             "site": f.get("site"),
             "message": f.get("msg"),
             "standalone": f.get("standalone"),
+            "history_note": None if f.get("standalone") else "does not repeat alone in a fresh interpreter: an EARLIER input of the same child (stream %s, from index %s) damaged the interpreter" % (f.get("stream"), f.get("env_start")),
             "per_entry_point": f.get("entries"),
             "cmd_zygo": f.get("cmd_zygo"),
             "inputs_with_same_class_and_site": f.get("count"),
